@@ -46,6 +46,8 @@ class Subject:
         self.seed = seed
         if ast is not None:
             self.ast = ast
+        elif arch == "deadend":
+            self.ast = gen.arch_deadend(gen.Ctx(rng, small=small, form=form), families, mean_units)
         elif arch == "hostile_h":
             self.ast = gen.arch_hostile_h(gen.Ctx(rng, small=True, form=form), families, mean_units)
         else:
